@@ -307,3 +307,20 @@ LEVEL_TEXT = ('Bounded-exhaustive model checking of the real roll operator: ever
 LEVEL_NOTE = ('Trusted: the 10-line slicing model and the reference interpreter (mc/refmodel.py); RxPY itself. '
               'Not covered: windows/strides beyond the grid, more than 3 keys, values (roll is value-oblivious).')
 TECHNIQUE = 'stateless bounded-exhaustive exploration of the real operator against a list-slicing reference model'
+
+
+def unit_test(case):
+    from .. import harness
+    if case['fam'] == 'top':
+        items = list(range(case['n']))
+        return harness.unit_test_api([['roll', case['w'], case['s'], [['to_list']]]], items, windows(items, case['w'], case['s']))
+    if case['fam'] == 'raw':
+        return harness.unit_test_raw([['roll', case['w'], case['s'], [['to_list']]]], case['events'])
+    if case['fam'] == 'grouped':
+        pos, items = {}, []
+        for g in case['order']:
+            items.append(100 * g + pos.get(g, 0))
+            pos[g] = pos.get(g, 0) + 1
+        spec = [['group_by', 'div100', [['roll', case['w'], case['s'], [['to_list']]]]]]
+        return harness.unit_test_api(spec, items, harness.model_all(spec, items))
+    return None
